@@ -6,6 +6,7 @@ PROPS = {
         "runs": [
             {"pkg": "./c14", "harness": "Harness_pairs",
              "params": {"quick": {"depth": 1, "width": 1, "strlen": 1}, "thorough": {"depth": 1, "width": 2, "strlen": 2}}},
+            {"pkg": "./c14", "harness": "Harness_shared", "setup": "Setup", "params": {"quick": {}, "thorough": {}}},
             {"pkg": "./c14", "harness": "Harness_triples",
              "params": {"quick": {"depth": 0, "width": 1, "strlen": 1}, "thorough": {"depth": 1, "width": 1, "strlen": 1}}},
         ],
@@ -29,17 +30,19 @@ PROPS = {
         "assumptions": ["append growth policy is the host runtime's for 16-byte elements (identical element size to types.MalType)"],
         "runs": [
             {"pkg": "./c02", "harness": "Harness_history", "setup": "Setup",
-             "params": {"quick": {"steps": 2, "ophi": 15}, "thorough": {"steps": 2}}, "wall": {"thorough": "40m"}},
+             "params": {"quick": {"steps": 2, "ophi": 17, "seedmask": 1043}, "thorough": {"steps": 2}}, "wall": {"thorough": "40m"}},
+            {"pkg": "./c02", "harness": "Harness_maps", "setup": "Setup",
+             "params": {"quick": {"steps": 2, "mapops": 1, "seedmask": 1004}, "thorough": {"steps": 3, "mapops": 1, "seedmask": 1004}}, "wall": {"thorough": "40m"}},
         ],
     },
     "C05": {
         "technique": "bounded symbolic execution of READ / READWithPreamble / read-string / PRINT incl. the whole jig/scanner on symbolic bytes over a 36-symbol alphabet; reachability of an escaping panic or of the step budget; SMT (z3) decides assertions, finite-domain evaluation (cross-checked against z3) decides branch feasibility",
         "outside": "texts longer than N bytes (templates extend the reach: constructor brackets, strings, raw strings, collections, preamble lines with symbolic holes); bytes outside the alphabet Sigma; strconv.ParseFloat is a model (arbitrary result); regexp is modelled by a backtracking matcher",
         "runs": [
-            {"pkg": "./c05", "harness": "Harness_read", "setup": "Setup", "params": {"quick": {"n": 3}, "thorough": {"n": 4}}, "wall": {"thorough": "40m"}},
-            {"pkg": "./c05", "harness": "Harness_readstring", "setup": "Setup", "params": {"quick": {"n": 2}, "thorough": {"n": 3}}},
-            {"pkg": "./c05", "harness": "Harness_focus", "setup": "Setup", "params": {"quick": {"k": 2}, "thorough": {"k": 3}}, "wall": {"thorough": "40m"}},
-            {"pkg": "./c05", "harness": "Harness_preamble", "setup": "Setup", "params": {"quick": {"n": 2, "v": 1, "c": 1}, "thorough": {"n": 3, "v": 2, "c": 1}}, "wall": {"thorough": "40m"}},
+            {"pkg": "./c05", "harness": "Harness_read", "setup": "Setup", "hang": True, "budget": 400000, "native_timeout": 20, "params": {"quick": {"n": 3}, "thorough": {"n": 4}}, "wall": {"thorough": "40m"}},
+            {"pkg": "./c05", "harness": "Harness_readstring", "setup": "Setup", "hang": True, "budget": 400000, "native_timeout": 20, "params": {"quick": {"n": 2}, "thorough": {"n": 3}}},
+            {"pkg": "./c05", "harness": "Harness_focus", "setup": "Setup", "hang": True, "budget": 400000, "native_timeout": 20, "params": {"quick": {"k": 2}, "thorough": {"k": 3}}, "wall": {"thorough": "40m"}},
+            {"pkg": "./c05", "harness": "Harness_preamble", "setup": "Setup", "hang": True, "budget": 400000, "native_timeout": 20, "params": {"quick": {"n": 2, "v": 1, "c": 1}, "thorough": {"n": 3, "v": 2, "c": 1}}, "wall": {"thorough": "40m"}},
         ],
     },
     "C06": {
@@ -48,6 +51,7 @@ PROPS = {
         "runs": [
             {"pkg": "./c06", "harness": "Harness_value", "maporder": True,
              "params": {"quick": {"depth": 1, "width": 1, "strlen": 2}, "thorough": {"depth": 1, "width": 2, "strlen": 3}}, "wall": {"thorough": "40m"}},
+            {"pkg": "./c06", "harness": "Harness_jsonish", "params": {"quick": {"strlen": 1}, "thorough": {"strlen": 3}}, "wall": {"thorough": "40m"}},
             {"pkg": "./c06", "harness": "Harness_text", "params": {"quick": {"n": 3}, "thorough": {"n": 4}}, "wall": {"thorough": "40m"}},
             {"pkg": "./c06", "harness": "Harness_text_quoted", "params": {"quick": {"n": 3, "quoted": 1}, "thorough": {"n": 4, "quoted": 1}}, "wall": {"thorough": "40m"}},
             {"pkg": "./c06", "harness": "Harness_text_raw", "params": {"quick": {"n": 3, "quoted": 2}, "thorough": {"n": 4, "quoted": 2}}, "wall": {"thorough": "40m"}},
@@ -77,6 +81,8 @@ PROPS = {
         "runs": [
             {"pkg": "./c03", "harness": "Harness_try", "setup": "Setup",
              "params": {"quick": {"nest": 0, "forms": 1}, "thorough": {"nest": 0, "forms": 2}}, "wall": {"thorough": "40m"}},
+            {"pkg": "./c03", "harness": "Harness_try_tail", "setup": "Setup",
+             "params": {"quick": {"small": 1}, "thorough": {}}, "wall": {"thorough": "40m"}},
             {"pkg": "./c03", "harness": "Harness_try_small", "setup": "Setup",
              "params": {"quick": {"nest": 0, "forms": 2, "small": 1}, "thorough": {"nest": 1, "forms": 2, "small": 1}}, "wall": {"thorough": "40m"}},
         ],
@@ -91,6 +97,10 @@ PROPS = {
              "params": {"quick": {"depth": 1}, "thorough": {"depth": 2}}, "wall": {"thorough": "40m"}},
             {"pkg": "./c04", "harness": "Harness_call", "setup": "Setup", "budget": 300000,
              "params": {"quick": {}, "thorough": {}}},
+            {"pkg": "./c04", "harness": "Harness_concurrent", "setup": "Setup", "budget": 300000, "preemptions": 1,
+             "params": {"quick": {}, "thorough": {}}},
+            {"pkg": "./c04", "harness": "Harness_cancelled", "setup": "Setup", "budget": 300000,
+             "params": {"quick": {"maxargs": 1}, "thorough": {"maxargs": 2}}, "wall": {"thorough": "40m"}},
         ],
     },
     "C12": {
@@ -192,7 +202,7 @@ PROPS = {
         "outside": "wall-clock latency, GC/scheduler delay, the duration of one builtin call, builtins that block without a context (read-line); loops that do not call the tick builtin; nesting/k/durations beyond the bounds (durations < 2^20 ms)",
         "level_note": "partial claim: promptness is established in logical / virtual time only; trusted: go/ssa, the symgo interpreter, its time/context/channel models and virtual clock, z3",
         "runs": [
-            {"pkg": "./c07", "harness": "Harness_cancel", "setup": "Setup", "hang": True, "budget": 3000000, "native_timeout": 30,
+            {"pkg": "./c07", "harness": "Harness_cancel", "setup": "Setup", "hang": True, "budget": 3000000, "native_timeout": 30, "preemptions": 1,
              "params": {"quick": {"nest": 1, "maxk": 3}, "thorough": {"nest": 2, "maxk": 6}}, "wall": {"thorough": "40m"}},
             {"pkg": "./c07", "harness": "Harness_sleep", "setup": "Setup", "hang": True, "solver": "z3-new", "native_timeout": 30,
              "params": {"quick": {}, "thorough": {}}},
